@@ -273,12 +273,21 @@ def run(ctx):
 				idx = {'t': 'int', 'i': rng.randint(-n - 2, n + 1), 'form': rng.choice([None, 'i8', 'i4', 'u2', 'u8', 'i1'])}
 				if idx['form'] and idx['form'][0] == 'u' and idx['i'] < 0:
 					idx['form'] = None
+				if idx['form'] == 'u8' and rng.random() < 0.3:
+					idx['i'] = rng.choice([2 ** 64 - 1, 2 ** 64 - max(n, 1), 2 ** 63])
 			elif r < 0.8:
 				ln = rng.randint(0, 8)
 				l = [rng.randint(-n - 1 if rng.random() < 0.1 else -n, n if rng.random() < 0.1 else max(n - 1, 0)) for _ in range(ln)] if n else [rng.randint(-1, 1) for _ in range(ln)]
 				form = rng.choice(['list', 'tuple', 'i8', 'i4', 'i2', 'i1', 'u8', 'u4', 'u1'])
 				if form[0] == 'u' and any(x < 0 for x in l):
 					form = 'i8'
+				if rng.random() < 0.12:
+					form = rng.choice(['u8', 'u8', 'u4'])
+					l = [rng.randint(0, max(n - 1, 0)) for _ in range(rng.randint(1, 4))]
+				if form in ('u8', 'u4', 'i8') and l and rng.random() < (0.8 if form == 'u8' else 0.25):
+					# values at the top of the index type's range (must be IndexError, never wrap around to a valid position)
+					top = {'u8': 2 ** 64, 'u4': 2 ** 32, 'i8': 2 ** 63}[form]
+					l[rng.randrange(len(l))] = rng.choice([top - 1, top - max(n, 1), top - 2, top // 2 - (1 if form != 'i8' else 2 ** 62)])
 				idx = {'t': 'ints', 'l': l, 'form': form}
 			else:
 				ln = n if rng.random() < 0.85 else rng.randint(0, n + 2)
@@ -326,8 +335,23 @@ def run(ctx):
 				p2 = 'ATGAT'
 			elif r < 0.55 and n > 1:
 				s2 = s2[::-1]
+			elif r < 0.75 and n > 1:
+				# the same concatenated values and the same count, split at different bounds
+				flat = sorted({x for sg in s1 for x in sg})
+				s1 = []
+				cuts = sorted(rng.sample(range(len(flat) + 1), min(n - 1, len(flat) + 1))) if flat else []
+				cuts = (cuts + [len(flat)] * n)[:n - 1]
+				prev = 0
+				for c in sorted(cuts):
+					s1.append(flat[prev:c]); prev = c
+				s1.append(flat[prev:])
+				cuts2 = sorted(rng.randint(0, len(flat)) for _ in range(n - 1))
+				s2, prev = [], 0
+				for c in cuts2:
+					s2.append(flat[prev:c]); prev = c
+				s2.append(flat[prev:])
 			dt2 = rng.choice([None, 'u8', 'i8'])
-			sub({'kind': 'eq', 'c1': rng.choice(conts), 'c2': rng.choice(['array', 'list']), 's1': s1, 's2': s2, 'k1': 11, 'p1': 'ATGAC',
+			sub({'kind': 'eq', 'c1': rng.choice(conts), 'c2': rng.choice(['array', 'array', 'list']), 's1': s1, 's2': s2, 'k1': 11, 'p1': 'ATGAC',
 			     'k2': k2, 'p2': p2, 'dt2': dt2}, 'eq')
 	finally:
 		cleanup()
